@@ -1,11 +1,48 @@
 //! ops that need the air / stark crates.
 use crate::*;
 use swiftness_air::domains::StarkDomains;
+use swiftness_air::public_memory::PublicInput;
+use swiftness_air::types::{AddrValue, ContinuousPageHeader, Page, SegmentInfo};
 use swiftness_transcript::transcript::Transcript;
 
 #[allow(dead_code)]
 fn r<T, E: std::fmt::Debug>(x: Result<T, E>, f: impl FnOnce(T) -> String) -> Out {
     match x { Ok(v) => Out::Ok(f(v)), Err(e) => Out::Err(format!("{:?}", e)) }
+}
+
+/// split `a:b;c:d` into rows of felts (`-` = none)
+pub fn rows(s: &str) -> Vec<Vec<Felt>> {
+    if s == "-" { return vec![]; }
+    s.split(';').map(|r| r.split(':').map(felt).collect()).collect()
+}
+pub fn fmt_rows(r: &[Vec<Felt>]) -> String {
+    if r.is_empty() { "-".into() } else { r.iter().map(|x| x.iter().map(hx).collect::<Vec<_>>().join(":")).collect::<Vec<_>>().join(";") }
+}
+
+/// PublicInput = 10 tokens: log_n_steps rc_min rc_max layout dyn(-|usize list) segments(b:s;..) pad_addr pad_val main_page(a:v;..) headers(start:size:hash:prod;..)
+pub const PI_TOKENS: usize = 10;
+pub fn parse_pi(a: &[&str]) -> PublicInput {
+    let dynamic_params = if a[4] == "-" { None } else {
+        let v: Vec<usize> = a[4].split(',').map(usz).collect();
+        if v.len() != 340 { panic!("HX-BAD-INPUT dynamic params length") }
+        Some(swiftness_air::dynamic::DynamicParams::from(v))
+    };
+    PublicInput {
+        log_n_steps: felt(a[0]), range_check_min: felt(a[1]), range_check_max: felt(a[2]), layout: felt(a[3]),
+        dynamic_params,
+        segments: rows(a[5]).iter().map(|r| SegmentInfo { begin_addr: r[0], stop_ptr: r[1] }).collect(),
+        padding_addr: felt(a[6]), padding_value: felt(a[7]),
+        main_page: Page(rows(a[8]).iter().map(|r| AddrValue { address: r[0], value: r[1] }).collect()),
+        continuous_page_headers: rows(a[9]).iter().map(|r| ContinuousPageHeader { start_address: r[0], size: r[1], hash: r[2], prod: r[3] }).collect(),
+    }
+}
+pub fn fmt_pi(p: &PublicInput) -> String {
+    let dynp = match &p.dynamic_params { None => "-".to_string(), Some(d) => { let v: Vec<usize> = d.clone().into(); v.iter().map(|x| format!("{:x}", x)).collect::<Vec<_>>().join(",") } };
+    format!("{} {} {} {} {} {} {} {} {} {}", hx(&p.log_n_steps), hx(&p.range_check_min), hx(&p.range_check_max), hx(&p.layout), dynp,
+        fmt_rows(&p.segments.iter().map(|s| vec![s.begin_addr, s.stop_ptr]).collect::<Vec<_>>()),
+        hx(&p.padding_addr), hx(&p.padding_value),
+        fmt_rows(&p.main_page.0.iter().map(|c| vec![c.address, c.value]).collect::<Vec<_>>()),
+        fmt_rows(&p.continuous_page_headers.iter().map(|h| vec![h.start_address, h.size, h.hash, h.prod]).collect::<Vec<_>>()))
 }
 
 pub fn run(op: &str, a: &[&str]) -> Option<Out> {
@@ -29,6 +66,18 @@ pub fn run(op: &str, a: &[&str]) -> Option<Out> {
         }
         // diluted <n_bits> <spacing> <z> <alpha>
         "diluted" => Out::Ok(hx(&swiftness_air::diluted::get_diluted_product(felt(a[0]), felt(a[1]), felt(a[2]), felt(a[3])))),
+        // memratio <PI x10> <z> <alpha> <size>
+        "memratio" => {
+            let pi = parse_pi(&a[0..PI_TOKENS]);
+            Out::Ok(hx(&pi.get_public_memory_product_ratio(felt(a[10]), felt(a[11]), felt(a[12]))))
+        }
+        // pihash <PI x10> <n_verifier_friendly_commitment_layers>
+        "pihash" => {
+            let pi = parse_pi(&a[0..PI_TOKENS]);
+            Out::Ok(hx(&pi.get_hash(felt(a[10]))))
+        }
+        // fixture_pi : the in-tree fixture public input in line format
+        "fixture_pi" => Out::Ok(fmt_pi(&swiftness_air::fixtures::public_input::get())),
         _ => return None,
     })
 }
